@@ -103,7 +103,10 @@ PortFsO == <<
 IpFsO == <<
   IF_(<<A1, A1, A3>>, TRUE, TRUE),
   IF_(<<A3, B5, A1>>, TRUE, FALSE),
-  IF_(<<B5, B1, B5>>, FALSE, TRUE)
+  IF_(<<B5, B1, B5>>, FALSE, TRUE),
+  IF_(<<B3, B5, B1>>, TRUE, TRUE),                    \* three and more addresses of one family in descending / mixed order
+  IF_(<<B5, B3, B1, A4, A3, A1>>, TRUE, FALSE),
+  IF_(<<A4, A1, A3>>, FALSE, TRUE)
 >>
 SubFsO == <<
   SF(<<N(V4(10, 0, 0, 0), 24), N(V4(10, 0, 0, 0), 8)>>, TRUE, TRUE),      \* narrow block first, wider block with the same base after it
